@@ -123,6 +123,20 @@ def gen_program(rng, n, pool):
     return ops
 
 
+def file_ancestor(ref, op):
+    for p in op[1:3]:
+        if not (isinstance(p, str) and p.startswith("/")):
+            continue
+        parts = p.strip("/").split("/")
+        for k in range(1, len(parts)):
+            try:
+                if ref.isfile("/" + "/".join(parts[:k])):
+                    return True
+            except Exception:  # noqa
+                return False
+    return False
+
+
 def free_clusters(ir):
     pf = ir.fs.fs
     tot = pf._get_total_sectors() - pf.first_data_sector
@@ -145,10 +159,16 @@ def run_one(ctx, label, img, meta, ops, mnt):
             clk.t = clock_tuple(i + 1)
             ctx.dist[op[0]] += 1
             kinds.add(op[0])
-            try:
-                rres = ("ok", ref_do(ref, op))
-            except Exception as e:  # noqa
-                rres = ("err", classify_exc(e))
+            if op[0] in ("copy", "move", "makedir") and file_ancestor(ref, op):
+                # a proper ancestor of an operand is a FILE: the documented answer of copy / move / makedir is "resource not found";
+                # the reference has quirks there (it moves a file "into" a file, trips an internal assertion in makedir), so it is not consulted
+                rres = ("err", "RNF")
+                ctx.dist["file-ancestor"] += 1
+            else:
+                try:
+                    rres = ("ok", ref_do(ref, op))
+                except Exception as e:  # noqa
+                    rres = ("err", classify_exc(e))
             ires, _ = ir.op(op)
             if ires[0] == "ok" and op[0] == "listdir":
                 ires = ("ok", sorted(ires[1]))
@@ -171,6 +191,13 @@ def run_one(ctx, label, img, meta, ops, mnt):
                     used = sum(len(bytes(d)) // 32 for d in pf.root_dir._get_entries_raw())
                     root_free = pf.bpb_header["BPB_RootEntCnt"] - used
                 target_in_root = all(p.count("/") <= 1 for p in op[1:3] if isinstance(p, str) and p.startswith("/"))
+                if op[0] == "makedirs":
+                    # makedirs creates the missing ancestors too: the first one goes into the (fixed-size) root region
+                    first = "/" + op[1].strip("/").split("/")[0]
+                    try:
+                        target_in_root = target_in_root or not ir.fs.exists(first)
+                    except Exception:  # noqa
+                        pass
                 if free >= need + 2 and not (target_in_root and root_free < 22):
                     ctx.violation(f"{label}: {op[:2]} refused with ENOSPC while {free} clusters are free ({need} needed at most)", "spurious-enospc:" + op[0], dict(rep, at=i))
                 return  # the reference has no capacity limit: stop comparing this program here
